@@ -4,6 +4,7 @@ import (
 	"bytes"
 
 	"github.com/aergoio/aergo/v2/types"
+	"github.com/aergoio/aergo/v2/types/dbkey"
 	vf "github.com/aergoio/aergo/v2/zzvf"
 )
 
@@ -29,4 +30,76 @@ func VF_C05_c() {
 	vf.Assert(bytes.Equal(reorg.bestBlock.GetHash(), u.mainAt(a).Hash), "C05.c")
 	vf.Observe("new", len(reorg.newBlocks))
 	vf.Observe("old", len(reorg.oldBlocks))
+}
+
+// C05.a: after every prefix of main-branch connects the latest pointer, the cached best block and the height index
+// form a parent-linked path to genesis and every tx of a path block is found at (block, idx).
+func VF_C05_a() {
+	a := 1 + vf.Choice("a", vf.Param("maxA", 2))
+	u := vfBuild(a, 0, 0, vfTxRange(vf.Param("minTx", 1), vf.Param("maxTx", 1)), nil)
+	if err := u.connect(u.gen); err != nil {
+		vf.Fail("C05.a")
+	}
+	vfCheckChain("C05.a", u.cs, u.kv, []*types.Block{u.gen})
+	for i := 1; i <= a; i++ {
+		ok, err := u.cs.cdb.isMainChain(u.main[i-1])
+		vf.Assert(err == nil && ok, "C05.a")
+		if err := u.connect(u.main[i-1]); err != nil {
+			vf.Fail("C05.a")
+		}
+		vfCheckChain("C05.a", u.cs, u.kv, u.oldPath()[:i+1])
+	}
+	vf.Reach("C05.a")
+	vf.Observe("best", u.cs.cdb.getBestBlockNo())
+	vf.Observe("units", u.kv.Units)
+}
+
+// C05.b: after the index part of a reorganisation to the side branch (gather + swapChain on a reorganizer built by
+// the harness, so that block execution is not entered) the invariant holds for the new branch; a tx that is only on the
+// abandoned branch is no longer reported, a tx on both is reported at its new block; the reorg marker is gone.
+func VF_C05_b() {
+	a, f, b := vfShape(vf.Param("maxA", 2), vf.Param("maxExtra", 1))
+	u := vfBuild(a, b, f, vfTxRange(vf.Param("minTx", 1), vf.Param("maxTx", 1)), nil)
+	u.populate()
+	reorg := &reorganizer{cs: u.cs, brTopBlock: u.side[b-1],
+		newBlocks: make([]*types.Block, 0, initBlkCount), oldBlocks: make([]*types.Block, 0, initBlkCount)}
+	if err := reorg.gather(); err != nil {
+		vf.Fail("C05.b")
+		return
+	}
+	reorg.newMarker()
+	err := reorg.swapChain()
+	vf.Reach("C05.b")
+	vf.Assert(err == nil, "C05.b")
+	vfCheckChain("C05.b", u.cs, u.kv, u.newPath())
+	vfCheckAbandoned("C05.b", u)
+	vf.Assert(len(u.kv.Get(dbkey.ReOrg())) == 0, "C05.b")
+	m, err := u.cs.cdb.getReorgMarker()
+	vf.Assert(err == nil && m == nil, "C05.b")
+	vf.Observe("best", u.cs.cdb.getBestBlockNo())
+	vf.Observe("units", u.kv.Units)
+}
+
+// vfCheckAbandoned: txs of abandoned main blocks are reported iff they are also on the new branch.
+func vfCheckAbandoned(ob string, u *vfUniverse) {
+	for i, tx := range u.txs {
+		p := u.txAt[i]
+		if p.side || p.no <= u.f {
+			continue
+		}
+		shared := false
+		for j, o := range u.txs {
+			if u.txAt[j].side {
+				shared = vf.Or(shared, bytes.Equal(tx.Hash, o.Hash))
+			}
+		}
+		got, idx, err := u.cs.getTx(tx.Hash)
+		if err == nil {
+			vf.Assert(shared, ob)
+			vf.Assert(got != nil && idx != nil, ob)
+		} else {
+			vf.Assert(!shared, ob)
+			vf.Assert(idx == nil, ob)
+		}
+	}
 }
